@@ -461,7 +461,7 @@ PROPS["C17"] = {
 
 PROPS["C18"] = {
     "judge": judge_parsers,
-    "modules": ["Gmsm.Props.C18", "Gmsm.Props.C18Linear", "Gmsm.Props.C02", "Gmsm.Props.C17", "Gmsm.Props.C16", "Gmsm.Props.C16Codec", "Gmsm.Props.C14Codec", "Gmsm.Props.C17Idem", "Gmsm.Props.C15Codec", "Gmsm.Props.C09Names"],
+    "modules": ["Gmsm.Props.C18", "Gmsm.Props.C18Linear", "Gmsm.Props.C18Output", "Gmsm.Props.C02", "Gmsm.Props.C17", "Gmsm.Props.C16", "Gmsm.Props.C16Codec", "Gmsm.Props.C14Codec", "Gmsm.Props.C17Idem", "Gmsm.Props.C15Codec", "Gmsm.Props.C09Names"],
     "theorems": [
         "Props.C09Names.decSAN_total",
         "Props.C09Names.sanLoop_fuel",
@@ -495,11 +495,12 @@ PROPS["C18"] = {
         "Props.C18.tooDeep_only_rejects", "Props.C18.ber2der_depth", "Props.C18.encodeCost_le", "Props.C18.ber2der_cost",
         "Props.C18.nested129_rejected", "Props.C18.nested128_accepted",
         "Props.C18.span_all", "Props.C18.span_linear", "Props.C18.items_inside_parent", "Props.C18.ber2der_linear",
+        "Props.C18.encodeLength_le", "Props.C18.readObject_sizes", "Props.C18.encode_all", "Props.C18.encode_le_span", "Props.C18.ber2der_output_linear",
         "Props.C02.decrypt_rejects_short", "Props.C17.unpad_sound", "Props.C16.altered_ticket_never_resumes", "Props.C16Codec.unmarshal_total", "Props.C16Codec.no_trailing_bytes", "Props.C14Codec.decompress_eq_none_iff", "Props.C14Codec.decompress_sound", "Props.C14Codec.cipherMarshal_short", "Props.C17Idem.readObject_wf",
     ],
     "gen_items": [],
     "level": "proof",
-    "claim": "Where a Lean model of a decoder exists, totality and resource bounds are theorems for every byte string: the BER transcoder model (tied to x509/ber.go by exact-output correspondence in C17 and here) is total by construction, every object it reads consumes at least two bytes and never claims bytes beyond the input (readObject_progress / readItems_progress), and the recursion is bounded by the remaining input: with fuel 2*(len-off)+1 the model never runs out (fuel_sufficient, ber2der_total) and the result does not depend on the fuel (fuel_irrelevant) — i.e. the stack depth and loop count of the real recursive descent are at most linear in the input; the repaired code refuses nesting deeper than 128 (depth_bounded, ber2der_depth; nested129_rejected / nested128_accepted show the bound is tight) and ber2der_cost bounds the bytes EncodeTo buffers by 129 x the output size. The SM2 ciphertext parser (C02 decrypt_rejects_short: short input is an error, never an out-of-range slice), PKCS#7 unpad (C17 unpad_sound) and the ticket gate (C16) are total functions with the error branches proved. For all 62 decoder entry points of the library (sm2 Decrypt in both orderings / DecryptAsn1 / CipherUnmarshal / CipherMarshal / Verify / Decompress; x509 certificates, requests, CRLs, PKCS#7 + Verify/Decrypt/DecryptSM2 with every key-type combination incl. nil and typed nil, BER, PKCS#8 with and without password, PEM and hex keys; pkcs12 Decode/DecodeAll/ToPEM incl. correctly MAC-ed mutated contents; sm4 key PEM; all 16 gmtls handshake message parsers, the session-state parser and decryptTicket incl. correctly sealed mutated states) the check runs the quantifier's derivation on a corpus of valid encodings made by the library: every truncation, single-byte substitutions from {00,01,7f,80,ff,b^1,b^80}, every TLV length rewritten to {0,len-1,len+1,80,84ffffffff}, universal tag swaps, consistent re-sizing of elements, BER nesting 10..10^4 in definite and indefinite form, empty input and random strings (about 26000 ops quick, 296000 thorough); each call runs under recover with wall-time (max(2 s, 100 us/byte)) and allocation (64 MiB + 1024/byte) limits, decoded values are then used (verification, decryption, chain building) so that lazily crashing values count. Added: byte-level models with totality and bounds theorems now also exist for the session-state parser behind decryptTicket (C16Codec.unmarshal_total: never claims bytes beyond the input), point decompression (C14Codec.decompress_eq_none_iff: the exact set of rejected inputs) and the ASN.1 ciphertext converter (cipherMarshal_short: short input is an error), each tied to the real code by exact-output ops. Handshake message parsers (Model.TLSMessages, Props.C15Codec): for all 12 parsers with variable-length content, everything returned lies inside the input (unmarshalX_total_bounds, for every byte string), the certificate-count subtraction never wraps (certCount_sound), stray bytes after the last certificate entry are rejected even with consistent outer lengths (no_stray_bytes) and the strict parsers reject every accepted message followed by anything (unmarshalX_no_trailing); tied by the hsmsg/hsmsgm ops (panic vs reject vs fields, line for line). The hand-written subjectAltName parser is total and returns only slices of its input (Props.C09Names.decSAN_total, decSAN_sound, sanLoop_fuel).",
+    "claim": "Where a Lean model of a decoder exists, totality and resource bounds are theorems for every byte string: the BER transcoder model (tied to x509/ber.go by exact-output correspondence in C17 and here) is total by construction, every object it reads consumes at least two bytes and never claims bytes beyond the input (readObject_progress / readItems_progress), and the recursion is bounded by the remaining input: with fuel 2*(len-off)+1 the model never runs out (fuel_sufficient, ber2der_total) and the result does not depend on the fuel (fuel_irrelevant) — i.e. the stack depth and loop count of the real recursive descent are at most linear in the input; the repaired code refuses nesting deeper than 128 (depth_bounded, ber2der_depth; nested129_rejected / nested128_accepted show the bound is tight) and ber2der_cost bounds the bytes EncodeTo buffers by 129 x the output size; since the repair of the overlapping-member defect (fix 58832e0) the tree is linear in the input - an object read from k bytes has at most k/2 nodes (span_linear, ber2der_linear) and re-encodes to at most k + 9 x nodes bytes (encode_le_span), so an accepted n-byte input yields at most 5.5 n bytes (ber2der_output_linear): time and memory of ber2der are within a constant multiple of the input. The SM2 ciphertext parser (C02 decrypt_rejects_short: short input is an error, never an out-of-range slice), PKCS#7 unpad (C17 unpad_sound) and the ticket gate (C16) are total functions with the error branches proved. For all 62 decoder entry points of the library (sm2 Decrypt in both orderings / DecryptAsn1 / CipherUnmarshal / CipherMarshal / Verify / Decompress; x509 certificates, requests, CRLs, PKCS#7 + Verify/Decrypt/DecryptSM2 with every key-type combination incl. nil and typed nil, BER, PKCS#8 with and without password, PEM and hex keys; pkcs12 Decode/DecodeAll/ToPEM incl. correctly MAC-ed mutated contents; sm4 key PEM; all 16 gmtls handshake message parsers, the session-state parser and decryptTicket incl. correctly sealed mutated states) the check runs the quantifier's derivation on a corpus of valid encodings made by the library: every truncation, single-byte substitutions from {00,01,7f,80,ff,b^1,b^80}, every TLV length rewritten to {0,len-1,len+1,80,84ffffffff}, universal tag swaps, consistent re-sizing of elements, BER nesting 10..10^4 in definite and indefinite form, empty input and random strings (about 26000 ops quick, 296000 thorough); each call runs under recover with wall-time (max(2 s, 100 us/byte)) and allocation (64 MiB + 1024/byte) limits, decoded values are then used (verification, decryption, chain building) so that lazily crashing values count. Added: byte-level models with totality and bounds theorems now also exist for the session-state parser behind decryptTicket (C16Codec.unmarshal_total: never claims bytes beyond the input), point decompression (C14Codec.decompress_eq_none_iff: the exact set of rejected inputs) and the ASN.1 ciphertext converter (cipherMarshal_short: short input is an error), each tied to the real code by exact-output ops. Handshake message parsers (Model.TLSMessages, Props.C15Codec): for all 12 parsers with variable-length content, everything returned lies inside the input (unmarshalX_total_bounds, for every byte string), the certificate-count subtraction never wraps (certCount_sound), stray bytes after the last certificate entry are rejected even with consistent outer lengths (no_stray_bytes) and the strict parsers reject every accepted message followed by anything (unmarshalX_no_trailing); tied by the hsmsg/hsmsgm ops (panic vs reject vs fields, line for line). The hand-written subjectAltName parser is total and returns only slices of its input (Props.C09Names.decSAN_total, decSAN_sound, sanLoop_fuel).",
     "note": "Partial: panic-freedom of the Go decoders themselves is decided by the mutation sweep, not by generated verification conditions (the VC generator of the design was not built); theorems cover the modelled decoders only (BER, SM2 ciphertext split, unpad, ticket gate). Password-stretching iteration counts carried by PKCS#8 / PKCS#12 inputs are exempt from the time limit, as the property says.",
     "trusted_base": ["Model.BER tied by the ber2der op (C17 generator plus the C18 nesting inputs)", "harness/c18.go limits and decoder table; hooks gmtls/pkcs12 export_verif_c18.go (parsers, ticket and PFX re-sealing)", "Go runtime recover() semantics; runtime.MemStats for the allocation measure"],
     "assumptions": [],
